@@ -2,7 +2,8 @@
    Property statements only; every proof is `exact <lemma from Proofs/C22_proofs.v>`.
 
    Reading guide.  [crun (init_cfg s progs) sch = Some c]: configuration [c] is reached from a
-   fresh channel state [s] (nothing sent, any windows / active flag / map membership) when the
+   fresh channel state [s] (nothing sent; any windows / active flag / map membership; blocking
+   (timeout None) or non-blocking (timeout 0.0) sends) when the
    threads [progs] (any number of threads, any operations, including the peer's messages and
    _unlink) are run under the schedule [sch] (any list of thread numbers).  [wire c] is the order
    in which messages were handed to transport._send_user_message; [pending c] are the messages
@@ -78,7 +79,10 @@ Proof. exact lock_order. Qed.
 Print Assumptions C22_no_data_after_in_lock_order.
 
 (* ... and a data message is only ever produced in a state where neither EOF nor CLOSE has been
-   produced (window reservation refuses afterwards) *)
+   produced (window reservation refuses afterwards).  [exec] ranges over every step of every
+   operation, including [KBlocked]: the step of a writer that was blocked in
+   out_buffer_cv.wait() on a zero window (timeout None), was notified, re-acquired the lock and
+   re-tests closed / eof_sent inside and AFTER the wait loop before reserving *)
 Theorem C22_data_reserved_before_end :
   forall o s, existsb isData (o_msgs (exec o s)) = true -> closed s = false /\ eof_sent s = false.
 Proof. exact data_reserved_before. Qed.
@@ -113,6 +117,16 @@ Example C22_closeh_reachable :
     active (sh c) = true /\ in_map (sh c) = true /\ cstep c tid = Some c' /\
     wire c = [MEof; MClose; MData 5].
 Proof. exact closeh_reachable. Qed.
+
+(* the blocking path is exercised: blocked writer, shutdown_write, late WINDOW_ADJUST: the writer
+   returns 0 and the wire is just [EOF]; before the WINDOW_ADJUST it cannot run at all *)
+Example C22_blocked_writer_refused :
+  exists c,
+    crun (init_cfg blocked_init [[OSend 5]; [OShutdown 1; OPeerWa 7]]) [0; 1; 1; 1; 1; 0]%nat = Some c /\
+    wire c = [MEof] /\ quiescent c /\
+    map res (thr c) = [r_ok 0; r_ok 0 ++ r_ok 0] /\
+    crun (init_cfg blocked_init [[OSend 5]; [OShutdown 1; OPeerWa 7]]) [0; 1; 1; 0]%nat = None.
+Proof. exact blocked_writer_refused. Qed.
 
 Example C22_dead_state_exists :
   exists s, closed s = true /\ eof_sent s = true /\ is_send_op (OSend 3) = true.
